@@ -159,7 +159,7 @@ func TestC04(t *testing.T) {
 		"known-finding features (big.Int, duplicate JSON names at one level) are switched on in 10% of the cases only and counted")
 	rapid.Check(t, func(t *rapid.T) {
 		c := &c04Case{}
-		c.T, c.Feature = drawTypeCase(t, tgen.Opts{MaxDepth: rapid.IntRange(1, 3).Draw(t, "depth"), Std: true, Recursive: rapid.IntRange(0, 9).Draw(t, "rec") == 0, Unsupported: rapid.IntRange(0, 9).Draw(t, "unsup") == 0})
+		c.T, c.Feature = drawTypeCase(t, tgen.Opts{MaxDepth: rapid.IntRange(1, 3).Draw(t, "depth"), Std: true, Methods: true, Recursive: rapid.IntRange(0, 9).Draw(t, "rec") == 0, Unsupported: rapid.IntRange(0, 9).Draw(t, "unsup") == 0})
 		typ, err := tgen.Build(c.T)
 		if err != nil {
 			// reflect.StructOf refuses some shapes (e.g. duplicate promoted names): not a case
